@@ -141,8 +141,7 @@ impl Matrix {
             return self.format == Format::Markdown
                 && self.per_test == PerTest::Absent
                 && matches!(self.doc, DocLimit::FrontMatter1s | DocLimit::Cli1s)
-                && !self.slow
-                && self.pos + 1 < self.n;
+                && !self.slow;
         }
         if self.format == Format::Cram && (self.per_test != PerTest::Absent || matches!(self.doc, DocLimit::ZeroFrontMatter | DocLimit::FrontMatter1s)) {
             return false;
@@ -287,7 +286,9 @@ fn gen_matrix(k: u64, rng: &mut Rng) -> Matrix {
             per_test: PerTest::Absent,
             doc: if (k / 12) % 2 == 0 { DocLimit::FrontMatter1s } else { DocLimit::Cli1s },
             n,
-            pos: pos.min(n - 2),
+            // every other wait row has the waiting test case last: nothing after it can show the
+            // exhausted budget, the test case itself has to
+            pos: if (k / 12) % 2 == 1 { n - 1 } else { pos.min(n - 2) },
             slow: false,
             wait: true,
             trap_term: 0,
